@@ -234,3 +234,10 @@ func CopyDBFiles(src, dst string) error {
 	}
 	return nil
 }
+
+// faultPlanOf returns the plan currently armed for a database file (nil if none).
+func faultPlanOf(dbPath string) *FaultPlan {
+	faults.mu.Lock()
+	defer faults.mu.Unlock()
+	return faults.plans[normPath(dbPath)]
+}
